@@ -152,7 +152,7 @@ class C03(Check):
             "while locked and unlocked later, or reloaded after a restart, or issued an imported-account address, or was compared with a "
             "re-created wallet; distinct by input")
     N_QUICK = 200
-    N_THOROUGH = 2500
+    N_THOROUGH = 1500
     SHARD = 40
     ASSUMPTIONS = [
         "keys are symbolic (root + path); the BIP32 law pub(CKDpriv(k,i)) = CKDpub(pub(k),i) for unhardened i holds by construction; "
